@@ -243,7 +243,7 @@ func NewVersion(path string, version string) (Version, error) {
 			return Version{}, fmt.Errorf("module 'local' cannot have version")
 		}
 	}
-	if version == "" {
+	if version == "" || version == "none" {
 		if err := CheckPath(path); err != nil {
 			return Version{}, err
 		}
